@@ -132,15 +132,16 @@ TRUSTED = ['modelled rather than verified: OlaClientCore SendDMX/FetchDMX/Regist
            'and routes std::_Rb_tree_increment through an instrumented probe so that ASan sees stale set iterators',
            'TCP, OS scheduling, the HTTP server, plugins/ports/RDM are not modelled']
 LEVEL_TEXT = ('Coq theorems over an executable model of N client libraries + per-client FIFO channels + the olad '
-              'service/universe store + ClientRemoved, with the schedule as a universally quantified input: no request '
-              'id ever completes twice (all schedules); a processed send is stored as (frame cut to 512, now, clamped '
-              'priority) and, when the sender is the universe\'s only source, universe, every registered sink and a '
-              'subsequent fetch see exactly that frame/universe/priority; a processed disconnect removes the client '
-              'everywhere and leaves everybody else unchanged.  PARTIAL: exactly-once completion under drained '
-              'channels, history-level FIFO and the multi-source merge result are not proved (they are exercised by '
-              'the correspondence check only); the fan-out theorem assumes duplicate-free sink sets with live '
-              'sessions.  The "never disturbs the daemon" clause is refuted on today\'s code (finding '
-              'C04-sink-push-reentrant-close); the fetch-priority defect is fixed by fixes/01.')
+              'service/universe store + the deferred ClientRemoved, with the schedule as a universally quantified input. '
+              'Proved for every schedule: no request id completes twice; ClientRemoved never runs inside a service '
+              'method (hazard unreachable, with fixes/02); sink sets stay duplicate-free with live sessions; the frames '
+              'applied for a sender are in send order (subsequence of the consumed prefix of its sent log, the rest '
+              'being exactly what is queued); a processed send is stored as (frame cut to 512, now, clamped priority), '
+              'the universe holds the HTP merge of the live top-priority group / the newest frame (LTP), every open '
+              'registered sink gets exactly one push with that universe/priority/frame and a fetch returns it; a '
+              'processed disconnect removes the client everywhere and leaves everybody else unchanged.  PARTIAL: the '
+              'exactly-once half (every request completes once the channels are drained with the connection up) is '
+              'not proved, only exercised by the correspondence check (key cnt).')
 LEVEL_NOTE = ('Trusted: Coq kernel, extraction (ExtrOcamlBasic), OCaml/C++ glue (the glue contains the drain loop), '
               'generator coverage of the correspondence; model = code is validated by differential testing of a real '
               'in-process OlaServer and real OlaClient objects under ASan/UBSan, not proved; protobuf, pipes, '
